@@ -59,6 +59,7 @@ type Module struct {
 	NFuncs int
 
 	callers    map[*ssa.Function][]callSite
+	refs       map[*ssa.Function][]ssa.Instruction
 	allFuncs   []*ssa.Function
 	gfCache    map[*ssa.Global]*ssa.Function
 	pdomCache  map[*ssa.Function]*postDom
